@@ -41,6 +41,7 @@ pub fn gen_cases(prop: &str, tier: &str, seed: u64, out: &mut dyn FnMut(Value)) 
         "C14" => props::c14::gen(tier, seed, out),
         "C19" => props::c19::gen(tier, seed, out),
         "C20" => props::c20::gen(tier, seed, out),
+        "C08" => props::c08::gen(tier, seed, out),
         "C06" => props::engine_props::gen_c06(tier, seed, out),
         "C07" => props::engine_props::gen_c07(tier, seed, out),
         "C09" => props::engine_props::gen_c09(tier, seed, out),
